@@ -57,6 +57,13 @@ func nativeOverlay(spec HarnessSpec, tag string, testBody string) (overlayFile s
 	return overlayFile, os.WriteFile(overlayFile, b, 0o644)
 }
 
+func replaySpec(spec HarnessSpec) HarnessSpec {
+	if spec.ReplayFunc != "" {
+		spec.Pkg, spec.Func = spec.ReplayPkg, spec.ReplayFunc
+	}
+	return spec
+}
+
 func replayTestBody(spec HarnessSpec) string {
 	return fmt.Sprintf(`package %s
 
@@ -90,7 +97,7 @@ func replayNative(ld *Loaded, spec HarnessSpec, v Violation) (bool, string, stri
 	os.MkdirAll(dir, 0o755)
 	modelFile := filepath.Join(dir, tag+"_model.json")
 	os.WriteFile(modelFile, mb, 0o644)
-	out, err := runNative(spec, tag, modelFile, 180*time.Second)
+	out, err := runNative(replaySpec(spec), tag, modelFile, 240*time.Second)
 	ok := false
 	switch v.Kind {
 	case "assert":
